@@ -14,6 +14,8 @@ mod st;
 mod c01;
 mod c03;
 mod c05;
+mod c06;
+mod cifdoc;
 mod full;
 mod c07;
 mod pdbio;
@@ -121,6 +123,7 @@ fn gen(prop: &str, tier: &str, seed: u64) -> Vec<String> {
         "C01" => c01::gen(tier, &mut r),
         "C03" => c03::gen(tier, &mut r),
         "C05" => c05::gen(tier, &mut r),
+        "C06" => c06::gen(tier, &mut r),
         "C07" => c07::gen(tier, &mut r),
         "C08" => c08::gen(tier, &mut r),
         "C09" => c09::gen(tier, &mut r),
@@ -141,6 +144,7 @@ fn exec(prop: &str, case: &str) -> Exec {
         "C01" => c01::exec(case),
         "C03" => c03::exec(case),
         "C05" => c05::exec(case),
+        "C06" => c06::exec(case),
         "C07" => c07::exec(case),
         "C08" => c08::exec(case),
         "C09" => c09::exec(case),
